@@ -501,3 +501,11 @@ impl PacketSender {
         self.alloc
     }
 }
+
+#[cfg(uflow_verif)]
+impl PacketSender {
+    /// The peer's receive allocation as this sender understands it (rounded up to whole fragments).
+    pub fn verif_max_alloc(&self) -> usize {
+        self.max_alloc
+    }
+}
